@@ -35,6 +35,7 @@ import Anko.Props.Tie.CallFlow
 import Anko.Props.Tie.StmtFlow
 import Anko.Props.Tie.LexFlow
 import Anko.Props.Tie.EnvFlow
+import Anko.Props.Tie.Inventory
 
 namespace Anko.C01
 open Anko.Cont
@@ -186,5 +187,22 @@ theorem source_tie_StmtFlow : Gen.StmtFlow.leaves = Tables.stmtFlow := Tie.stmtF
 theorem source_tie_LexFlow : Gen.LexFlow.leaves = Tables.lexFlow := Tie.lexFlow
 /-- the environment API (env/*.go) -/
 theorem source_tie_EnvFlow : Gen.EnvFlow.leaves = Tables.envFlow := Tie.envFlow
+
+
+/-! ### Declaration inventory
+
+Nothing was added to the packages this property is anchored in: their top-level declarations (functions, methods, variables, constants, types with
+the fields of struct types), regenerated from /repo on this run, are the audited ones (Props/Tie/Inventory). A helper, a package-level table or a
+file added there - code no flow table can pin - breaks the tie by name and makes this property's check search for a failing input. -/
+/-- vm/ -/
+theorem declarations_of_Vm_are_the_audited_ones : Tie.ofPkg "vm" Gen.Inventory.decls = Tie.ofPkg "vm" Tables.inventory := Tie.inventoryVm
+/-- env/ -/
+theorem declarations_of_Env_are_the_audited_ones : Tie.ofPkg "env" Gen.Inventory.decls = Tie.ofPkg "env" Tables.inventory := Tie.inventoryEnv
+/-- parser/ (lexer.go; parser.go is goyacc's output of the pinned grammar) -/
+theorem declarations_of_Parser_are_the_audited_ones : Tie.ofPkg "parser" Gen.Inventory.decls = Tie.ofPkg "parser" Tables.inventory := Tie.inventoryParser
+/-- ast/ -/
+theorem declarations_of_Ast_are_the_audited_ones : Tie.ofPkg "ast" Gen.Inventory.decls = Tie.ofPkg "ast" Tables.inventory := Tie.inventoryAst
+/-- core/ -/
+theorem declarations_of_Core_are_the_audited_ones : Tie.ofPkg "core" Gen.Inventory.decls = Tie.ofPkg "core" Tables.inventory := Tie.inventoryCore
 
 end Anko.C01
